@@ -630,6 +630,34 @@ pub fn run(tier: &str, seed: u64, outdir: &str, extra: &[String]) {
             }
             evaluations += 1;
             cx.judge("generated", &g.payload, true, Some(&g), simd_primary);
+            // token partitions that no macroblock row reads (more partitions than rows) may be arbitrarily short -- an encoder that
+            // minimises size writes 0 or 1 byte there; libwebp decodes such frames.  Native comparison with libwebp only: the
+            // reference model of the proofs (Spec.VP8) is stricter and rejects an empty partition, so no oracle case is written.
+            let n_parts = g.part_sizes.len().saturating_sub(1);
+            let rows = g.spec.mbh();
+            if n_parts > rows && g.part_sizes.len() >= 2 {
+                let first = g.part_sizes[0];
+                let table = 3 * (n_parts - 1);
+                let hdr = 10; // frame tag (3) + start code (3) + dimensions (4)
+                if g.payload.len() >= hdr + first + table + g.part_sizes[1..].iter().sum::<usize>() {
+                    let mut out = g.payload[..hdr + first].to_vec();
+                    let mut bodies: Vec<Vec<u8>> = vec![];
+                    let mut off = hdr + first + table;
+                    for (pi, &sz) in g.part_sizes[1..].iter().enumerate() {
+                        let body = &g.payload[off..off + sz];
+                        off += sz;
+                        bodies.push(if pi >= rows { body[..body.len().min(r.below(2) as usize)].to_vec() } else { body.to_vec() });
+                    }
+                    for b in &bodies[..n_parts - 1] {
+                        out.extend_from_slice(&[(b.len() & 0xff) as u8, ((b.len() >> 8) & 0xff) as u8, ((b.len() >> 16) & 0xff) as u8]);
+                    }
+                    for b in &bodies { out.extend_from_slice(b); }
+                    // keep at least one byte after the last partition boundary when the last partition became empty, as a RIFF pad would
+                    evaluations += 1;
+                    cx.feat.inc("generated.short_unread_partitions");
+                    cx.judge("generated_short_unread_partitions", &out, false, None, simd_primary);
+                }
+            }
         }
         // (b) libwebp encodings
         for _ in 0..n_enc {
